@@ -1030,6 +1030,19 @@ def canon_val(v):
     return v
 
 
+def first_diff(a, b, path="$"):
+    """path and the two sub-values at the first place where two (canonical) values differ, or None"""
+    if a == b:
+        return None
+    if isinstance(a, list) and isinstance(b, list) and len(a) == len(b):
+        for i, (x, y) in enumerate(zip(a, b)):
+            d = first_diff(x, y, f"{path}[{i}]")
+            if d:
+                return d
+    import json
+    return {"path": path, "expected": json.dumps(a)[:300], "got": json.dumps(b)[:300]}
+
+
 def canon_stepvals(vals):
     out = []
     for sv in vals:
@@ -1074,6 +1087,42 @@ def padding_defs():
 def padding_package(namespace="Pad"):
     pkg = Package(namespace)
     pkg.defs = padding_defs()
+    return pkg
+
+
+def nullable_package(namespace="Nul"):
+    """Records whose fields can be null in every way a type can say so (directly, through aliases, alias chains, generic
+    aliases, unions with a null case, named unions with a null case, nested records) next to fields that cannot, as single
+    steps and as streams. NDJSON omits a null field: a reader that fills a reused object must reset it. No date / time types
+    (the C++ stand-in for date.h cannot format them)."""
+    pkg = Package(namespace)
+    P = lambda n: ("prim", n)
+    pkg.defs.append({"kind": "enum", "name": "NE", "flags": False, "base": None, "auto": True, "values": [("a", 0), ("b", 1), ("c", 2)]})
+    pkg.defs.append({"kind": "alias", "name": "MaybeInt", "tparams": [], "type": ("opt", P("int32"))})
+    pkg.defs.append({"kind": "alias", "name": "MaybeIntAgain", "tparams": [], "type": ("named", "MaybeInt", [])})
+    pkg.defs.append({"kind": "alias", "name": "MaybeStr", "tparams": [], "type": ("opt", P("string"))})
+    pkg.defs.append({"kind": "alias", "name": "Opt", "tparams": ["T"], "type": ("opt", ("tparam", "T"))})
+    pkg.defs.append({"kind": "alias", "name": "OptU", "tparams": [], "type": ("union", True, [(None, P("int32")), (None, P("string"))])})
+    pkg.defs.append({"kind": "alias", "name": "OptTagged", "tparams": [], "type": ("union", True, [("num", P("float64")), ("txt", P("string")), ("lst", ("vec", P("int32"), None))])})
+    pkg.defs.append({"kind": "record", "name": "Inner", "tparams": [],
+                     "fields": [("x", ("named", "MaybeInt", [])), ("y", P("string")), ("z", ("opt", ("named", "NE", [])))]})
+    pkg.defs.append({"kind": "alias", "name": "MaybeInner", "tparams": [], "type": ("opt", ("named", "Inner", []))})
+    pkg.defs.append({"kind": "record", "name": "Nulls", "tparams": [],
+                     "fields": [("direct", ("opt", P("int32"))), ("aliased", ("named", "MaybeInt", [])), ("chained", ("named", "MaybeIntAgain", [])),
+                                ("text", ("named", "MaybeStr", [])), ("generic", ("named", "Opt", [P("float64")])), ("genericRec", ("named", "Opt", [("named", "Inner", [])])),
+                                ("untagged", ("named", "OptU", [])), ("tagged", ("named", "OptTagged", [])), ("inline", ("union", True, [(None, P("int32")), (None, P("string"))])),
+                                ("inner", ("named", "Inner", [])), ("maybeInner", ("named", "MaybeInner", [])), ("plain", P("int32")),
+                                ("vec", ("vec", P("int32"), None)), ("optVec", ("opt", ("vec", P("string"), None))), ("map", ("map", P("string"), ("named", "MaybeInt", []))),
+                                ("en", ("opt", ("named", "NE", []))), ("last", ("named", "MaybeStr", []))]})
+    pkg.defs.append({"kind": "record", "name": "Box", "tparams": ["T"], "fields": [("v", ("tparam", "T")), ("o", ("opt", ("tparam", "T"))), ("n", P("int32"))]})
+    pkg.defs.append({"kind": "protocol", "name": "PNul", "steps": [
+        ("head", ("named", "Nulls", []), False),
+        ("items", ("named", "Nulls", []), True),
+        ("inners", ("named", "Inner", []), True),
+        ("boxes", ("named", "Box", [("named", "MaybeInt", [])]), True),
+        ("boxed", ("named", "Box", [("named", "Inner", [])]), True),
+        ("aliased", ("named", "MaybeInner", []), True),
+        ("tail", ("named", "MaybeIntAgain", []), False)]})
     return pkg
 
 
